@@ -52,6 +52,7 @@ def handleRun (toks impl : List String) : String :=
     else if !shouldFail && ret != "ok" then "VIOL clause=lt.spurious_error"
     else if !outFails && (delivered != total || same != "1") then "VIOL clause=lt.complete"
     else if !shouldFail && (field impl "complete") == some "0" then "VIOL clause=lt.complete why=gzip-stream-unfinished"
+    else if (field impl "content") == some "0" then "VIOL clause=lt.complete why=not-the-document"
     else if same != "1" then "VIOL clause=lt.prefix"
     else
       -- correspondence with the abstract protocol (plain output: one output write per filter write)
